@@ -100,6 +100,10 @@ def parse(
             lexer.TokenType.VARIABLE_SET,
         ):
             structures.append(structure.GenericStatement([head]))
+        elif head.name != lexer.TokenType.GENERAL:
+            # Numbers, compressed literals and code page numbers are data:
+            # their contents must never be read as syntax.
+            structures.append(structure.GenericStatement([head]))
         elif head.value == BREAK_CHARACTER:
             structures.append(structure.BreakStatement(parent))
         elif head.value == RECURSE_CHARACTER:
@@ -293,7 +297,7 @@ def _get_branches(tokens: deque[lexer.Token], bracket_stack: list[str]):
             branches[-1].append(token)
             bracket_stack.append(STRUCTURE_INFORMATION[token.value][-1])
 
-        elif token.value == "|":
+        elif token.name == lexer.TokenType.GENERAL and token.value == "|":
             if len(bracket_stack) == 1:
                 # that is, we are in the outer-most structure.
                 branches.append([])
